@@ -149,13 +149,25 @@ def st_point_kw(draw, cm, forms=ALL_FORMS, dyadic=False, reps="cow",
     return kw
 
 
-def respell(draw, cm, instant_s, reps="cow", tz=None, allow24=True):
-    """Kwargs of another spelling of the whole-second instant ``instant_s``."""
+def respell(draw, cm, instant_s, reps="cow", tz=None, allow24=True,
+            decimal=False):
+    """Kwargs of another spelling of the whole-second instant ``instant_s``.
+
+    decimal: the time of day may be spelled as a decimal hour / minute when
+    that fraction is dyadic (exact in binary floats)."""
     tzh, tzm = draw(st_tz()) if tz is None else tz
     local = instant_s + tzh * 3600 + tzm * 60
     dn, sod = divmod(local, 86400)
     rep = draw(st.sampled_from(reps))
-    if sod == 0 and allow24 and draw(st.integers(0, 3)) == 0:
+    if decimal and sod % 15 == 0 and draw(st.integers(0, 2)) > 0:
+        kw = spell_date(cm, dn, rep)
+        kw["hour_of_day"], r = divmod(sod, 3600)
+        if sod % 225 == 0 and draw(st.booleans()):
+            kw["hour_of_day_decimal"] = r / 3600
+        else:
+            kw["minute_of_hour"], r = divmod(r, 60)
+            kw["minute_of_hour_decimal"] = r / 60
+    elif sod == 0 and allow24 and draw(st.integers(0, 3)) == 0:
         kw = spell_date(cm, dn - 1, rep)
         kw["hour_of_day"] = 24
     else:
